@@ -13,7 +13,7 @@ PROP = {
              "eval.State through the REAL repl.EvalOne (file mode, ShowEval, NoColor, NilAndErr; State.Out and EvalOne's out are two "
              "distinct writers), in 4 configurations (cache on/off x registers on/off). Per input: bytes written to State.Out, bytes "
              "EvalOne printed as the result, errs>0, panicked, continuation, and afterwards depth, scope-at-root, State.Out identity, "
-             "root register count, delta of the globals dump. Failing inputs (81 texts): language errors at top level; errors inside "
+             "root register count, delta of the globals dump. Failing inputs (86 texts): language errors at top level; errors inside "
              "nested calls, lambdas, recursion and loops; counted loops with a variable at nesting 1-3 at top level (written "
              "`for i = i:i+N` so that the no-register configuration stores the value the global already has) and inside functions; "
              "recovered panics of the allocation guard at top level / inside calls / inside loops (no other Go panic is reachable: the C07 "
